@@ -228,3 +228,126 @@ extern "C" void harness_migrate()
     }
 }
 #endif
+
+// =====================================================================================================================
+// harness_join : the completion hand-shake.  One dying thread TH (its entry function has returned: the real _photon_thread_die / thread::die run),
+// one thread ME that joins it with the real thread_join (thread.cond / thread.lock), a bystander B.  Two orders:
+//   ORDER 0  TH dies first (ME is READY meanwhile), then ME calls thread_join;
+//   ORDER 1  ME calls thread_join first and goes to sleep in th->cond.wait(th->lock); TH then runs and dies, which must wake ME.
+// joinable is symbolic in ORDER 0 (a non-joinable thread releases its own stack exactly once through the deferred dispose and is not joined).
+// Stand-ins: the final noreturn switch _photon_switch_context_defer_die(arg, func, to) -> verif_die_switch (runs the deferred function "on the next thread's
+// stack" and returns; rt/verif_rt.h VERIF_DIE_RETURNS); switch_context_defer -> verif_switch_defer (runs the deferred unlock, then lets TH run and die);
+// photon_thread_dealloc -> counting delegate; deallocate_tls -> nop.
+#ifdef H_JOIN
+#ifndef ORDER
+#define ORDER 0
+#endif
+extern "C" { uint32_t verif_die_switched; }
+// _photon_thread_die is declared noreturn: the compiler would drop everything after a direct call.  The harness calls this undefined, returning
+// declaration instead, which the translator maps onto the real function (ir2c --map verif_call_die=_photon_thread_die).
+extern "C" void verif_call_die(thread*);
+static int n_dealloc, n_die_switch; static void* dealloc_buf; static size_t dealloc_size; static bool dealloc_before_done;
+#define ME (&TH0.v)
+#define TH (&TH2.v)
+#define BY (&TH3.v)
+static char STACKBUF[64];
+static void rec_dealloc(void*, void* p, size_t n) { n_dealloc++; dealloc_buf = p; dealloc_size = n; if (TH->state != states::DONE) dealloc_before_done = true; }
+extern "C" NOINL void verif_die_switch(void* arg, uint64_t func, void** to_ref)
+{
+    vcpu_t* v = &VCV.v;
+    n_die_switch++;
+    CHECK(TH->state == states::DONE, "a dying thread is DONE before it leaves its stack");
+    CHECK(TH->lock.locked(), "thread.lock is held across the final switch (released, or the stack disposed, only on the next thread's stack)");
+    CHECK(CURRENT != TH && CURRENT->state == states::RUNNING && CURRENT->vcpu == v, "the vCPU goes on with another thread that is RUNNING");
+    CHECK(to_ref == CURRENT->stack.pointer_ref(), "the switch target is the new current thread");
+    auto f = &thread::dispose;
+    if (func == (uint64_t&)f) {
+        CHECK(!TH->is_joinable() && arg == TH, "only a non-joinable thread disposes of its own stack");
+        TH->dispose();
+    } else {
+        CHECK(func == (uint64_t)&spinlock_unlock && arg == &TH->lock && TH->is_joinable(), "a joinable thread only releases its lock: the joiner disposes");
+        spinlock_unlock(arg);
+    }
+    verif_die_switched = 1;
+}
+extern "C" NOINL void verif_switch_defer(thread* from, thread* to, void (*defer)(void*), void* arg)
+{
+#if ORDER == 1
+    CHECK(from == ME && from->state == states::SLEEPING && from->waitq != nullptr, "the joiner sleeps in the dying thread's condition variable");
+    CHECK(CURRENT == to && to->state == states::RUNNING, "the switch target is current and RUNNING");
+    CHECK(defer == &spinlock_unlock && arg == &TH->lock, "cond.wait(lock) releases the lock on the next thread's stack");
+    spinlock_unlock(arg);
+    // whoever runs now yields until TH is scheduled; TH's entry function returns: it dies
+    for (int s = 0; s < 2; s++) { if (CURRENT == TH) break; AtomicRunQ().goto_next(); }
+    ASSUME(CURRENT == TH);
+    TH->retval = (void*)(uintptr_t)0x5a5a;
+    verif_call_die(TH);
+    verif_die_switched = 0;
+    // the threads that are runnable yield until the joiner runs again
+    for (int s = 0; s < 2; s++) { if (CURRENT == ME) break; AtomicRunQ().goto_next(); }
+    CHECK(CURRENT == ME && ME->state == states::RUNNING, "the dying thread's notify makes the joiner runnable (no lost wake-up: it is in the run list)");
+    ASSUME(CURRENT == ME);
+#else
+    CHECK(false, "no sleep in this order");
+#endif
+}
+extern "C" NOINL void verif_switch(thread*, thread*) { CHECK(false, "no plain context switch in the join hand-shake"); }
+
+extern "C" void harness_join()
+{
+    init_vcpus();
+    vcpu_t* v = &VCV.v;
+    photon::now = nondet_u64();
+    photon_thread_dealloc = Delegate<void, void*, size_t>(nullptr, &rec_dealloc);
+    init_thread(ME, ORDER == 0 ? states::READY : states::RUNNING, v);
+    init_thread(TH, ORDER == 0 ? states::RUNNING : states::READY, v);
+    init_thread(BY, states::READY, v);
+    new (&TH->cond) condition_variable;
+    bool by_present = nondet_bool(), th_first = nondet_bool();
+    thread* cur = ORDER == 0 ? TH : ME; thread* oth = ORDER == 0 ? ME : TH;
+    if (by_present && th_first) { cur->insert_tail(oth); cur->insert_tail(BY); } else if (by_present) { cur->insert_tail(BY); cur->insert_tail(oth); } else cur->insert_tail(oth);
+    CURRENT = cur;
+    bool joinable = ORDER == 1 ? true : nondet_bool();
+    TH->flags = joinable ? THREAD_JOINABLE : 0;
+    TH->buf = STACKBUF; TH->stack_size = nondet_u64();
+    size_t ss0 = TH->stack_size;
+    uint32_t nv0 = nondet_u8(); ASSUME(nv0 >= 3 && nv0 < 100); v->nthreads = nv0;
+    void* rv = nullptr;
+    VHEAD = ME;
+#if ORDER == 0
+    TH->retval = (void*)(uintptr_t)0x5a5a;
+    verif_call_die(TH);
+    verif_die_switched = 0;
+    CHECK(n_die_switch == 1, "die() ends in the final switch");
+    CHECK(v->nthreads == nv0 - 1, "the vCPU's thread count drops by one when a thread finishes");
+    locate();
+    CHECK(where_[2] == IN_NONE, "a finished thread is in no run list");
+    CHECK(where_[0] == IN_VRUN && (where_[3] == IN_VRUN) == by_present, "the other threads stay in the run list");
+    if (!joinable) {
+        CHECK(n_dealloc == 1 && dealloc_buf == STACKBUF && dealloc_size == ss0, "a non-joinable thread's stack is released exactly once after it finished");
+        WITNESS("non-joinable thread finished");
+    } else {
+        CHECK(n_dealloc == 0, "a joinable thread's stack is not released before the join");
+        CHECK(!TH->lock.locked(), "the dying thread's lock is released on the next thread's stack");
+        for (int s = 0; s < 2; s++) { if (CURRENT == ME) break; AtomicRunQ().goto_next(); }
+        ASSUME(CURRENT == ME);
+        rv = thread_join((join_handle*)TH);
+    }
+#else
+    rv = thread_join((join_handle*)TH);
+    CHECK(n_die_switch == 1, "the join returned after the thread died");
+    CHECK(v->nthreads == nv0 - 1, "the vCPU's thread count drops by one when a thread finishes");
+#endif
+    if (joinable) {
+        CHECK(rv == (void*)(uintptr_t)0x5a5a, "thread_join returns the entry function's return value");
+        CHECK(n_dealloc == 1 && dealloc_buf == STACKBUF && dealloc_size == ss0, "the joined thread's stack is released exactly once, by the join");
+        CHECK(!dealloc_before_done, "the stack is not released before the thread is DONE");
+        CHECK(CURRENT == ME && ME->state == states::RUNNING && ME->waitq == nullptr && ME->idx == -1, "the joiner runs on, in no queue");
+        locate();
+        CHECK(where_[0] == IN_VRUN && where_[2] == IN_NONE && (where_[3] == IN_VRUN) == by_present, "run list = the live threads");
+        CHECK(v->sleepq.empty(), "nobody is left in the sleep heap");
+        WITNESS("joined");
+        if (by_present) WITNESS("joined with a bystander in the run list");
+    }
+}
+#endif
